@@ -6,6 +6,8 @@ import PyGqlModel.ExecArgs
 import PyGqlModel.Spec.ExecSpec
 import PyGqlModel.Spec.ValidDoc
 import PyGqlModel.Spec.MergeSafe
+import PyGqlModel.Spec.ValidDocR
+import PyGqlModel.Spec.SchemaChecks
 open PyGql PyGql.Exec
 
 namespace Driver.ExecOps
@@ -125,6 +127,9 @@ def handle? (j : J) : Option J :=
     let sj := responseToJson sp
     some (.obj [("model", mj), ("spec", sj), ("quirk_dup", .bool (mj.render != sj.render)),
                 ("validdoc", .bool (PyGql.Spec.validDocB s doc vars)), ("validdoc_why", .str (PyGql.Spec.validDocWhy s doc vars)),
+                ("validdoc_r", .bool (PyGql.Spec.validDocRB s doc vars)), ("ops_rooted", .bool (PyGql.Spec.opsRooted s doc)),
+                ("schema_checks", .bool (PyGql.Spec.schemaChecksB (PyGql.Spec.withBuiltins s))),
+                ("schema_checks_exec", .bool (PyGql.Spec.schemaChecksExecB s)),
                 ("key_consistent", .bool (PyGql.Spec.keyConsistentB doc)), ("ranked", .bool (PyGql.Spec.rankedB doc)),
                 ("merge_safe", .bool (PyGql.Spec.mergeSafeB s doc)),
                 ("dirs_strict", .bool (PyGql.Spec.dirsStrict vars (PyGql.Spec.docDirs doc)))])
